@@ -36,6 +36,10 @@ def CS.shift (s : CS) : CS × Option Coin :=
 
 def CS.ofList (l : List Coin) : CS := l.foldl CS.push {}
 
+/-- `NewMsgTxWithInputCoins`: one input per coin of the set, in the order of the set, spending that coin's outpoint
+(a coin's outpoint is identified with the coin's `id`); no signature script, final sequence number -/
+def CS.txInputs (s : CS) : List Nat := s.coins.map (·.id)
+
 def satisfiesTargetValue (target minChange total : Int) : Bool :=
   total == target || total ≥ target + minChange
 
